@@ -95,6 +95,8 @@ type P4d struct {
 
 	// fault plan: fail the Write RPC whose ordinal (counted from Arm) equals FailAt
 	writeN   int
+	fired      int
+	firedKinds []string
 	FailAt   map[int]string // ordinal -> "UNAVAILABLE" | "INVALID_ARGUMENT" | "RESOURCE_EXHAUSTED" | "NOT_FOUND"
 	Delay    func() time.Duration
 	inflight atomic.Int64
@@ -531,6 +533,8 @@ func (d *P4d) Write(ctx context.Context, req *p4.WriteRequest) (*p4.WriteRespons
 	}
 	if f, ok := d.FailAt[d.writeN]; ok {
 		w.Failed = f
+		d.fired++
+		d.firedKinds = append(d.firedKinds, strings.Join(w.Kinds, ","))
 		d.log = append(d.log, w)
 		if f == "UNAVAILABLE" {
 			return nil, status.Error(codes.Unavailable, "injected failure")
@@ -786,11 +790,20 @@ func (d *P4d) LogSince(i int) []PWrite {
 func (d *P4d) Arm(plan map[int]string) {
 	d.mu.Lock()
 	d.writeN = 0
+	d.fired = 0
+	d.firedKinds = nil
 	d.FailAt = plan
 	if d.FailAt == nil {
 		d.FailAt = map[int]string{}
 	}
 	d.mu.Unlock()
+}
+
+// Fired returns how many planned faults have hit a Write since Arm, and what those Writes carried.
+func (d *P4d) Fired() (int, []string) {
+	d.mu.Lock()
+	defer d.mu.Unlock()
+	return d.fired, append([]string(nil), d.firedKinds...)
 }
 
 // WriteCount returns the number of Write RPCs since Arm.
